@@ -1,11 +1,12 @@
 """U10: typed stack-trace remapping keeps every element (C08), both copies (mapper.rs and cache/mod.rs).
 
-`remap_stacktrace_typed` is verified as a whole (recursion included); the `frames` fold -- a closure over
-Peekable<RemappedFrameIter> + Vec::extend -- is outside Verus' reach and sits behind an R2 shim whose body is exactly that
-expression and whose contract (`every input frame contributes >= 1 output frame`) is ASSUMED.  `remap_class` is abstract
-here (its own contract is proved in u1/u2).
+`remap_stacktrace_typed` is verified as a whole (recursion included). The `frames` fold goes behind a generic shim for
+`slice::iter().fold(init, f)` (the chain of accumulators, each step through the closure's own contract); the closure body is an R5
+region (`frames-fold-step`, Peekable<RemappedFrameIter> + Vec::extend behind shims) that the closure calls in place (R11), and
+`lemma_fold_chain` turns the chain into `ret.frames == remapped_frames(self, trace.frames)`: every frame replaced by all its remapped
+frames, or kept unchanged when there is none, in order. `remap_class` / `remap_frame` are abstract here (their own contracts: u1/u2).
 """
-from vf.unit import Unit
+from vf.unit import Unit, AnchorLost
 from .common import HEADER, FOOTER, contract, extract_struct
 
 CLONE_THROWABLE = """impl<'s> Clone for Throwable<'s> {
@@ -35,8 +36,29 @@ fn shim_peek_is_some<'a>(p: &mut PeekFrames<'a>) -> (r: bool)
 fn shim_extend_frames<'a>(v: &mut Vec<StackFrame<'a>>, p: PeekFrames<'a>)
     ensures final(v)@ == old(v)@ + p.pending@,
 { unimplemented!() }
-// what the (assumed) fold over the frames guarantees: nothing is dropped
-pub uninterp spec fn frames_kept(input: Seq<StackFrame>, output: Seq<StackFrame>) -> bool;
+// C08: what typed remapping makes of the frames: every frame is replaced by all its remapped frames, or kept unchanged when there is none
+pub open spec fn remapped_frames<'x, M>(m: M, fs: Seq<StackFrame<'x>>, n: int) -> Seq<StackFrame<'x>>
+    decreases n
+{
+    if n <= 0 { Seq::empty() }
+    else { remapped_frames(m, fs, n - 1) + (if pending_frames(m, fs[n - 1]).len() == 0 { seq![fs[n - 1]] } else { pending_frames(m, fs[n - 1]) }) }
+}
+pub open spec fn frames_kept<'x, M>(m: M, input: Seq<StackFrame<'x>>, output: Seq<StackFrame<'x>>) -> bool { output == remapped_frames(m, input, input.len() as int) }
+pub proof fn lemma_fold_chain<'x, M>(m: M, fs: Seq<StackFrame<'x>>, accs: Seq<Vec<StackFrame<'x>>>, n: int)
+    requires 0 <= n <= fs.len(), accs.len() == fs.len() + 1, accs[0]@ == Seq::<StackFrame<'x>>::empty(),
+        forall|i: int| 0 <= i < fs.len() ==> #[trigger] accs[i + 1]@ == accs[i]@ + (if pending_frames(m, fs[i]).len() == 0 { seq![fs[i]] } else { pending_frames(m, fs[i]) }),
+    ensures accs[n]@ == remapped_frames(m, fs, n),
+    decreases n
+{
+    if n > 0 { lemma_fold_chain(m, fs, accs, n - 1); assert(accs[(n - 1) + 1]@ == accs[n - 1]@ + (if pending_frames(m, fs[n - 1]).len() == 0 { seq![fs[n - 1]] } else { pending_frames(m, fs[n - 1]) })); }
+}
+// `slice.iter().fold(init, f)`: the chain of accumulators (ASSUMED: std restated; the closure carries its own contract)
+#[verifier::external_body]
+fn shim_slice_iter_fold<T, B, F: FnMut(B, &T) -> B>(s: &Vec<T>, init: B, f: F) -> (r: B)
+    requires forall|b: B, x: &T| #[trigger] f.requires((b, x)),
+    ensures exists|accs: Seq<B>| accs.len() == s@.len() + 1 && accs[0] == init && r == accs[s@.len() as int]
+        && (forall|i: int| 0 <= i < s@.len() ==> f.ensures((#[trigger] accs[i], &s@[i]), accs[i + 1])),
+{ s.iter().fold(init, f) }
 
 """
 
@@ -112,19 +134,37 @@ fn shim_extend_iter%s(v: &mut Vec<StackFrame<'a>>, it: %s)
     rfm.drop_body("remap_frame and the iterator it returns are proved in unit u1/u2; here: signature only, frames it will yield are abstract")
     u.raw("    #[verifier::external_body]\n", "glue")
     u.emit(rfm)
-    u.raw("""    #[verifier::external_body]
-    fn shim_fold_frames<'a>(&'a self, trace: &StackTrace<'a>) -> (frames: Vec<StackFrame<'a>>)
-        ensures frames_kept(trace.frames@, frames@),
-    { unimplemented!() /* body in /repo: trace.frames.iter().fold(Vec::with_capacity(..), |mut frames, f| { .. }) */ }
-""", "glue")
-
     f = src.impl_fn(IMPL, "remap_stacktrace_typed")
     f.ret("ret")
     f.props_all = ["C08"]
     f.props_safety = ["C13" if which == "mapper" else "C12"]
-    f.replace_call("trace .frames .iter() .fold", "self.shim_fold_frames(trace)", "R2",
-                   why="fold closure over Peekable<RemappedFrameIter> + Vec::extend is outside Verus' reach; assumed contract frames_kept")
     import re
+    from vf.rustlex import match_close as _mc
+    mfold = re.search(r"(trace\s*\.frames)\s*\.iter\(\)\s*\.fold\(", f.orig)
+    mclo = re.search(r"\|mut (\w+), (\w+)\|\s*\{", f.orig)
+    if not (mfold and mclo) or mclo.start() < mfold.end():
+        raise AnchorLost("remap_stacktrace_typed: `trace.frames.iter().fold(INIT, |mut frames, f| { .. })` not found")
+    _toks = f._toks()
+    _i = next(ix for ix, t in enumerate(_toks) if t[1] == mclo.end() - 1)
+    _c = _toks[_mc(f.orig, _toks, _i)][1]
+    acc, fr = mclo.group(1), mclo.group(2)
+    f.replace_span(mfold.start(), mfold.end(), "shim_slice_iter_fold(&%s, " % re.sub(r"\s+", "", mfold.group(1)), "R2",
+                   "slice::iter().fold(init, f) behind a shim: the chain of accumulators, each step through the closure's own contract (assumed: std restated)")
+    # R11: the closure body is replaced by a call of the region function generated from that very text below; R3: closure contract = the region's contract
+    f.replace_span(mclo.start(), _c + 1, """|%(acc)s: Vec<StackFrame<'a>>, %(fr)s: &StackFrame<'a>| -> (r: Vec<StackFrame<'a>>)
+                    ensures r@ == %(acc)s@ + (if pending_frames(*self, *%(fr)s).len() == 0 { seq![*%(fr)s] } else { pending_frames(*self, *%(fr)s) })
+                    { let ghost f0_ = %(acc)s@; let r_ = self.region_frames_fold_step(%(acc)s, %(fr)s); proof { assert(f0_.push(*%(fr)s) =~= f0_ + seq![*%(fr)s]); } r_ }""" % dict(acc=acc, fr=fr), "R11",
+                   "closure body => call of the region function that is verified from this very text (same contract)")
+    mlet = re.search(r"let\s+(\w+)\s*=\s*trace\s*\.frames", f.orig)
+    if not mlet:
+        raise AnchorLost("remap_stacktrace_typed: `let frames = trace.frames..` not found")
+    se = f.stmt_extent(mlet.start())[1]
+    f.insert_at(se, """
+        proof {
+            let accs = choose|accs: Seq<Vec<StackFrame<'a>>>| accs.len() == trace.frames@.len() + 1 && accs[0]@ == Seq::<StackFrame<'a>>::empty() && %(v)s == accs[trace.frames@.len() as int]
+                && (forall|i: int| 0 <= i < trace.frames@.len() ==> #[trigger] accs[i + 1]@ == accs[i]@ + (if pending_frames(*self, trace.frames@[i]).len() == 0 { seq![trace.frames@[i]] } else { pending_frames(*self, trace.frames@[i]) }));
+            lemma_fold_chain(*self, trace.frames@, accs, trace.frames@.len() as int);
+        }""" % dict(v=mlet.group(1)))
     if re.search(r"\.and_then\(\s*\|t\|\s*self\.remap_throwable\(t\)\s*\)", f.orig):
         # shape of the pinned snapshot (finding D4): the closure returns remap_throwable's Option unchanged
         f.closure("|t|", params="|t: &Throwable<'a>|", ret="r: Option<Throwable<'a>>",
@@ -138,7 +178,7 @@ fn shim_extend_iter%s(v: &mut Vec<StackFrame<'a>>, it: %s)
     f.contract("""    ensures
         /*@L:exception_kept:C08*/ (ret.exception is Some) == (trace.exception is Some),
         /*@L:exception_remapped_or_same:C08*/ trace.exception is Some ==> throwable_ok(spec_remap_class(*self, trace.exception->0.class@), trace.exception->0, ret.exception->0),
-        /*@L:frames_kept:C08*/ frames_kept(trace.frames@, ret.frames@),
+        /*@L:frames_kept:C08*/ frames_kept(*self, trace.frames@, ret.frames@),
         /*@L:cause_depth_kept:C08*/ depth(ret) == depth(*trace),
     decreases depth(*trace),""")
     u.emit(f)
